@@ -186,7 +186,6 @@ def gen_c13() -> Tuple[str, Dict[str, str]]:
         "From Coq Require Import ZArith List String.",
         "Import ListNotations.",
         "Open Scope Z_scope.",
-        "Open Scope string_scope.",
         "",
     ]
 
@@ -214,7 +213,7 @@ def gen_c13() -> Tuple[str, Dict[str, str]]:
                      "(an operator without precedence makes ply fall back to shift on conflict: not modelled)",
                      repr(prec))
     out.append("(* Parser.precedence, lowest level first (ply/yacc convention) *)")
-    out.append(f"Definition precedence : list (string * list string) := [{'; '.join(rows)}].")
+    out.append(f"Definition precedence : list (string * list string) := [{'; '.join(rows)}]%string.")
     out.append("")
 
     rules, raw = grammar_tables()
@@ -225,7 +224,7 @@ def gen_c13() -> Tuple[str, Dict[str, str]]:
         lhs, alts = rules[r]
         glines.append("  (" + cstr(lhs) + ", [" + "; ".join("[" + "; ".join(cstr(s) for s in a) + "]" for a in alts) + "])")
     out.append(";\n".join(glines))
-    out.append("].")
+    out.append("]%string.")
     out.append("")
 
     # p_ functions by the grammar rule they are bound to
@@ -303,7 +302,7 @@ def gen_c13() -> Tuple[str, Dict[str, str]]:
         pt[r] = _passthrough_index(by_rule[r])
     out.append("(* pass-through actions `p[0] = p[k]`: (rule, k) *)")
     out.append("Definition passthrough : list (string * Z) := [" +
-               "; ".join(f"({cstr(rules[r][0])}, {k})" for r, k in pt.items()) + "].")
+               "; ".join(f"({cstr(rules[r][0])}, {k})" for r, k in pt.items()) + "]%string.")
     out.append("")
     for r in ("r_const", "r_option", "r_option_value", "r_constant_reference_for_calculation", "r_constant_reference",
               "r_constant_reference_for_array_capacity", "r_dotted_identifier"):
@@ -343,7 +342,7 @@ def gen_c13() -> Tuple[str, Dict[str, str]]:
         raise Broken("translate_c13: two operator tokens share a lexeme", repr(lexemes))
     out.append("(* operator lexemes t_PLUS .. t_DIVIDE *)")
     out.append("Definition op_lexemes : list (string * Z) := [" +
-               "; ".join(f"({cstr(t)}, {ord(c)})" for t, c in lexemes.items()) + "].")
+               "; ".join(f"({cstr(t)}, {ord(c)})" for t, c in lexemes.items()) + "]%string.")
     lits = _lit(_class_attr(L, "literals"), "Lexer.literals")
     if not isinstance(lits, str) or "(" not in lits or ")" not in lits or "=" not in lits or "." not in lits:
         raise Broken("translate_c13: Lexer.literals lacks one of ( ) = .", repr(lits))
